@@ -17,14 +17,17 @@ extern "C" int h_acomm(unsigned d, double* a, double* b, double* o){
 }
 // the same two operations assigned into storage with a history.  which: 0 iCommutator, 1 ACommutator.
 // mode 0: the target is a second vector viewing A's buffer; 1: a second vector viewing B's buffer; 2: the target already holds the OTHER
-// operation's result (so every component, the identity component included, has previous content); 3: the target is A itself
+// operation's result (so every component, the identity component included, has previous content); 3: the target is A itself;
+// 4 / 5: A -= op(A,B) / A += op(A,B)
 extern "C" int h_comm_into(unsigned which, unsigned mode, unsigned d, double* a, double* b, double* o){
   try{
     SU_vector A(d,a), B(d,b);
     if(mode==0){ SU_vector Tv(d,a); if(which==0) Tv = iCommutator(A,B); else Tv = ACommutator(A,B); for(unsigned k=0;k<d*d;k++) o[k]=Tv[k]; }
     else if(mode==1){ SU_vector Tv(d,b); if(which==0) Tv = iCommutator(A,B); else Tv = ACommutator(A,B); for(unsigned k=0;k<d*d;k++) o[k]=Tv[k]; }
     else if(mode==2){ SU_vector C; if(which==0){ C = ACommutator(A,B); C = iCommutator(A,B); } else { C = iCommutator(A,B); C = ACommutator(A,B); } for(unsigned k=0;k<d*d;k++) o[k]=C[k]; }
-    else { if(which==0) A = iCommutator(A,B); else A = ACommutator(A,B); for(unsigned k=0;k<d*d;k++) o[k]=A[k]; }
+    else if(mode==3){ if(which==0) A = iCommutator(A,B); else A = ACommutator(A,B); for(unsigned k=0;k<d*d;k++) o[k]=A[k]; }
+    else if(mode==4){ if(which==0) A -= iCommutator(A,B); else A -= ACommutator(A,B); for(unsigned k=0;k<d*d;k++) o[k]=A[k]; }   // compound forms on an operand
+    else { if(which==0) A += iCommutator(A,B); else A += ACommutator(A,B); for(unsigned k=0;k<d*d;k++) o[k]=A[k]; }
     return 0;
   }catch(...){ return 1; }
 }
